@@ -41,8 +41,15 @@ def _worker(args):
     return r
 
 
-def replay_record(rec):
-    """run the real, unpatched code on the recorded float inputs; returns (reproduced, message)"""
+from vf.harness import isolated as _isolated  # noqa: E402
+
+
+def replay_record(rec, timeout=120):
+    """run the real, unpatched code on the recorded float inputs (in a child process); returns (reproduced, message)"""
+    return _isolated(_replay_record, (rec,), timeout, (False, "replay did not finish within the time limit"))
+
+
+def _replay_record(rec):
     import warnings
     warnings.filterwarnings("ignore")
     from vf import harness
@@ -67,6 +74,10 @@ def replay_record(rec):
 
 
 def search_witness(rec, n=24, seed=0, budget_s=60.0):
+    return _isolated(_search_witness, (rec, n, seed, budget_s), budget_s + 30, None)
+
+
+def _search_witness(rec, n=24, seed=0, budget_s=60.0):
     """the solver said `sat` but its model is not a counterexample for the *real* back end (the symbolic x* is far less constrained than a real
     optimum).  Look for a concrete witness of the same clause among random well-scaled inputs of the same case, on the unpatched code."""
     import warnings
@@ -147,6 +158,8 @@ def main(argv=None):
     prop = a.prop.upper()
     seed = int(os.environ.get("VERIF_SEED", "0") or 0)
     t0 = time.time()
+    import faulthandler, signal
+    faulthandler.register(signal.SIGUSR1, all_threads=True)  # kill -USR1 <pid> prints the Python stack (debugging aid)
     import warnings
     warnings.filterwarnings("ignore")
     import dreye.api.estimator  # noqa: imported before forking so that the workers inherit it
@@ -164,6 +177,7 @@ def main(argv=None):
     searched = set()
     replayed_box = [0]
     results = []
+    numeric_notes = []
 
     def process(r):
         """replay the solver models of one finished case on the real code and classify them"""
@@ -216,6 +230,10 @@ def main(argv=None):
         # translator validation mismatches (a goal failure on a clause that is a known finding is the finding itself)
         mm = []
         for x in r.get("validate", {}).get("mismatch", []):
+            if x.get("kind") == "exception-differs" and any(t in x.get("real", "") for t in ("did not converge", "failed. Try another solver")):
+                # the compiled solver gave up numerically on a sampled instance that is feasible in exact arithmetic: solver accuracy is outside every claim
+                numeric_notes.append(dict(case=r["case"], note=x.get("real", "")[:160]))
+                continue
             if x.get("kind") == "exception-differs" and x.get("real", "None") != "None" and x.get("sym", "None") == "None":
                 # the real code raised on a concrete in-domain input for which the encoding has no exception path: replay it as a violation
                 rec = dict(property=prop, case=r["case"], body=r["body"], kwargs=r["kwargs_raw"], label=f"no-exception[{x['real'][:80]}]", values=x["values"])
@@ -299,6 +317,7 @@ def main(argv=None):
                                        mismatches=sum(len(r.get("validate", {}).get("mismatch", [])) for r in results)),
             cases_planned=len(cases), cases_run=len(results), stopped_after_first_violation=stopped_early,
             exhaustive=False, solver="z3 " + __import__("z3").get_version_string(),
+            numeric_notes=numeric_notes[:10],
             known_findings_hit=[k[0].get("id", k[0].get("what")) for k in known_hits],
             inconclusive=[dict(case=c, **{k: str(v)[:300] for k, v in i.items()}) for c, i in inconclusive][:20],
         ),
